@@ -4,11 +4,15 @@
 (* inductive invariants discharged with Apalache over unbounded integers    *)
 (*   apalache-mc check --init=Init    --inv=IndInv --length=0    base: Init => IndInv            *)
 (*   apalache-mc check --init=IndInit --inv=IndInv --length=1    step: IndInv /\ Next => IndInv'  *)
-(* Four machines run side by side on disjoint variables (one Next):         *)
+(* Five machines run side by side on disjoint variables (one Next):         *)
 (*   Q  the refresh counter of a quantiser (Quantizer.tla: idx, cache),      *)
 (*   P  the tail cache of a filterbank in units of windows (PFB.tla),        *)
 (*   S  the sub-block loop of collect_data_block (Backend.tla),              *)
-(*   B  blocks, files and PKTIDX of record() (Backend.tla / RawFiles.tla).   *)
+(*   B  blocks, files and PKTIDX of record() (Backend.tla / RawFiles.tla),   *)
+(*   C  the clocks of an antenna and its two polarisation streams with      *)
+(*      requests of any size, single streams asked directly (Peek) and      *)
+(*      set_time / add_time / reset_start (Stream.tla: skew, ClockExact,    *)
+(*      AntennaClockEqualsStreams, ResyncAtStart).                          *)
 (* TLC checks the same invariants on the bounded models; here no bound on    *)
 (* calls, periods, windows, block sizes or block counts remains.             *)
 (***************************************************************************)
@@ -52,9 +56,32 @@ VARIABLES
     \* @type: Int;
     inFile,     \* B: blocks already in that file
     \* @type: Int;
-    pktidx      \* B: PKTIDX of the next header
+    pktidx,     \* B: PKTIDX of the next header
+    \* @type: Int;
+    aclk,       \* C: the antenna's clock (ticks)
+    \* @type: Int;
+    ox,         \* C: clock of the x stream
+    \* @type: Int;
+    oy,         \* C: clock of the y stream
+    \* @type: Int;
+    skx,        \* C: samples asked of the x stream directly since the last set_time
+    \* @type: Int;
+    sky,        \* C: the same for y
+    \* @type: Int;
+    base0,      \* C: tick of the last set_time
+    \* @type: Int;
+    cntc,       \* C: samples delivered by the antenna since then
+    \* @type: Bool;
+    startc      \* C: the antenna waits at the start of an observation
 
-vars == <<p, calls, idx, cached, lastRefresh, set, fedW, outW, T, subT, sub, written, bpf, spb, pkt0, blk, file, inFile, pktidx>>
+qv == <<p, calls, idx, cached, lastRefresh>>
+pv == <<set, fedW, outW>>
+\* @type: <<Int, Int, Int, Int>>;
+sv == <<T, subT, sub, written>>
+\* @type: <<Int, Int, Int, Int, Int, Int, Int>>;
+bv == <<bpf, spb, pkt0, blk, file, inFile, pktidx>>
+cv == <<aclk, ox, oy, skx, sky, base0, cntc, startc>>
+vars == <<qv, pv, sv, bv, cv>>
 
 Min(a, b) == IF a < b THEN a ELSE b
 Ceil(a, b) == (a + b - 1) \div b
@@ -101,23 +128,44 @@ BInv == /\ bpf >= 1 /\ spb >= 1 /\ blk >= 0
         /\ file = blk \div bpf /\ inFile = blk % bpf                 \* BlocksPerFile
         /\ pktidx = pkt0 + blk * spb                                 \* PktIdxStep
 
+(* C: Antenna.get_samples(n) / a single stream's get_samples(n) / set_time(t) (add_time(d) = set_time(clock + d),
+   reset_start = add_time(0): SetAll of Stream.tla is absolute, which is what re-synchronises a stream that ran ahead) *)
+CGet(n) == /\ n >= 1 /\ aclk' = aclk + n /\ ox' = ox + n /\ oy' = oy + n /\ cntc' = cntc + n /\ startc' = FALSE
+           /\ UNCHANGED <<skx, sky, base0>>
+CPeekX(n) == /\ n >= 1 /\ ox' = ox + n /\ skx' = skx + n /\ UNCHANGED <<aclk, oy, sky, base0, cntc, startc>>
+CPeekY(n) == /\ n >= 1 /\ oy' = oy + n /\ sky' = sky + n /\ UNCHANGED <<aclk, ox, skx, base0, cntc, startc>>
+CSet(t) == /\ aclk' = t /\ ox' = t /\ oy' = t /\ skx' = 0 /\ sky' = 0 /\ base0' = t /\ cntc' = 0 /\ startc' = TRUE
+CInv == /\ cntc >= 0 /\ skx >= 0 /\ sky >= 0
+        /\ aclk = base0 + cntc                                        \* ClockExact (antenna)
+        /\ ox = aclk + skx /\ oy = aclk + sky                         \* AntennaClockEqualsStreams up to the skew
+        /\ (startc => (cntc = 0 /\ aclk = base0))
+        /\ ((startc /\ skx = 0 /\ sky = 0) => (ox = base0 /\ oy = base0))   \* ResyncAtStart
+
 -----------------------------------------------------------------------------
 Init == /\ p \in Int /\ calls = 0 /\ idx = 0 /\ cached = FALSE /\ lastRefresh = -1
         /\ set = FALSE /\ fedW = 0 /\ outW = 0
         /\ T \in Int /\ T >= 1 /\ subT \in Int /\ subT >= 1 /\ sub = 0 /\ written = 0
         /\ bpf \in Int /\ bpf >= 1 /\ spb \in Int /\ spb >= 1 /\ pkt0 \in Int /\ blk = 0 /\ file = 0 /\ inFile = 0 /\ pktidx = pkt0
+        /\ base0 \in Int /\ aclk = base0 /\ ox = base0 /\ oy = base0 /\ skx = 0 /\ sky = 0 /\ cntc = 0 /\ startc = TRUE
 
-Next == \/ (QCall /\ UNCHANGED <<set, fedW, outW, T, subT, sub, written, bpf, spb, pkt0, blk, file, inFile, pktidx>>)
-        \/ (QReset /\ UNCHANGED <<set, fedW, outW, T, subT, sub, written, bpf, spb, pkt0, blk, file, inFile, pktidx>>)
-        \/ (\E w \in Int : PCall(w) /\ UNCHANGED <<p, calls, idx, cached, lastRefresh, T, subT, sub, written, bpf, spb, pkt0, blk, file, inFile, pktidx>>)
-        \/ (PReset /\ UNCHANGED <<p, calls, idx, cached, lastRefresh, T, subT, sub, written, bpf, spb, pkt0, blk, file, inFile, pktidx>>)
-        \/ (SStep /\ UNCHANGED <<p, calls, idx, cached, lastRefresh, set, fedW, outW, bpf, spb, pkt0, blk, file, inFile, pktidx>>)
-        \/ (BStep /\ UNCHANGED <<p, calls, idx, cached, lastRefresh, set, fedW, outW, T, subT, sub, written>>)
+Next == \/ (QCall /\ UNCHANGED <<pv, sv, bv, cv>>)
+        \/ (QReset /\ UNCHANGED <<pv, sv, bv, cv>>)
+        \/ (\E w \in Int : PCall(w) /\ UNCHANGED <<qv, sv, bv, cv>>)
+        \/ (PReset /\ UNCHANGED <<qv, sv, bv, cv>>)
+        \/ (SStep /\ UNCHANGED <<qv, pv, bv, cv>>)
+        \/ (BStep /\ UNCHANGED <<qv, pv, sv, cv>>)
+        \/ (\E n \in Int : CGet(n) /\ UNCHANGED <<qv, pv, sv, bv>>)
+        \/ (\E n \in Int : CPeekX(n) /\ UNCHANGED <<qv, pv, sv, bv>>)
+        \/ (\E n \in Int : CPeekY(n) /\ UNCHANGED <<qv, pv, sv, bv>>)
+        \/ (\E t \in Int : CSet(t) /\ UNCHANGED <<qv, pv, sv, bv>>)
+        \/ (\E d \in Int : CSet(aclk + d) /\ UNCHANGED <<qv, pv, sv, bv>>)
 
-IndInv == QInv /\ PInv /\ SInv /\ BInv
+IndInv == QInv /\ PInv /\ SInv /\ BInv /\ CInv
 IndInit == /\ p \in Int /\ calls \in Int /\ idx \in Int /\ cached \in BOOLEAN /\ lastRefresh \in Int
            /\ set \in BOOLEAN /\ fedW \in Int /\ outW \in Int
            /\ T \in Int /\ subT \in Int /\ sub \in Int /\ written \in Int
            /\ bpf \in Int /\ spb \in Int /\ pkt0 \in Int /\ blk \in Int /\ file \in Int /\ inFile \in Int /\ pktidx \in Int
+           /\ aclk \in Int /\ ox \in Int /\ oy \in Int /\ skx \in Int /\ sky \in Int /\ base0 \in Int /\ cntc \in Int
+           /\ startc \in BOOLEAN
            /\ IndInv
 =============================================================================
